@@ -237,3 +237,129 @@ def frame_header_valid(data):
         return True
     except HyperframeError:
         return False
+
+
+# ---------------------------------------------------------------------------
+# Header rules (RFC 7540 section 8.1.2, RFC 8441; property statements C14 / C15 / C16) -- the oracle of layer 2.
+# Field names / values are bytes or str; every predicate works on both and is restricted to what the interpreter
+# translates (single-expression returns), except the few marked "hooked" that have a symbolic twin in h2vc/strmodel.py.
+WS_CODES = (9, 10, 11, 12, 13, 32)
+PSEUDO_NAMES = (b':method', ':method', b':scheme', ':scheme', b':authority', ':authority', b':path', ':path',
+                b':status', ':status', b':protocol', ':protocol')
+
+
+def is_name(x, lit):
+    """x is the field name `lit` (given as str) in x's own string type."""
+    return (x == lit.encode('ascii')) if isinstance(x, bytes) else (x == lit)
+
+
+def is_connection_specific(x):
+    """RFC 7540 8.1.2.2: connection-specific header fields."""
+    return (is_name(x, "connection") or is_name(x, "proxy-connection") or is_name(x, "keep-alive")
+            or is_name(x, "transfer-encoding") or is_name(x, "upgrade"))
+
+
+def must_never_index(name, value):
+    """C14: authorization, proxy-authorization and cookies shorter than 20 bytes are never-indexed."""
+    return is_name(name, "authorization") or is_name(name, "proxy-authorization") or (is_name(name, "cookie") and len(value) < 20)
+
+
+def is_pseudo(x):
+    return x.startswith(b':') if isinstance(x, bytes) else x.startswith(':')
+
+
+def is_known_pseudo(x):
+    return (is_name(x, ":method") or is_name(x, ":scheme") or is_name(x, ":authority") or is_name(x, ":path")
+            or is_name(x, ":status") or is_name(x, ":protocol"))
+
+
+def seen(s, lit):
+    return (lit in s) or (lit.encode('ascii') in s)
+
+
+def pseudo_fields_acceptable(s, method, flags):
+    """Which pseudo-header fields a complete block may / must carry (RFC 7540 8.1.2.1 - 8.1.2.4, RFC 8441 4):
+    trailers none; responses :status and no request pseudo-header; requests :method, :scheme, :path, no :status,
+    and :protocol only with CONNECT."""
+    return (
+        (not (seen(s, ":method") or seen(s, ":scheme") or seen(s, ":authority") or seen(s, ":path") or seen(s, ":status") or seen(s, ":protocol")))
+        if flags.is_trailer else
+        (seen(s, ":status") and not (seen(s, ":method") or seen(s, ":scheme") or seen(s, ":authority") or seen(s, ":path") or seen(s, ":protocol")))
+        if flags.is_response_header else
+        (seen(s, ":path") and seen(s, ":method") and seen(s, ":scheme") and not seen(s, ":status")
+         and (method == b'CONNECT' or not seen(s, ":protocol"))))
+
+
+def host_authority_ok(authority, host):
+    """RFC 7540 8.1.2.3 as the library documents it: a request carries :authority or Host, and if both, they agree."""
+    return (authority is not None or host is not None) and (authority is None or host is None or authority == host)
+
+
+def ws_at_either_end(x):
+    return len(x) > 0 and ((x[0] in WS_CODES) or (x[-1] in WS_CODES))
+
+
+def as_bytes(v):
+    return v if isinstance(v, bytes) else v.encode('utf-8')
+
+
+def starts_with_1(v):
+    return v.startswith(b'1') if isinstance(v, bytes) else v.startswith('1')
+
+
+def has_ascii_upper(x):
+    """hooked: some code point of x is in A..Z"""
+    return any(65 <= c <= 90 for c in (x if isinstance(x, bytes) else x.encode('latin-1', 'replace')))
+
+
+def header_class(h):
+    """hooked: 'tuple' | 'HeaderTuple' | 'NeverIndexedHeaderTuple'"""
+    return type(h).__name__
+
+
+def stage_trace(seq):
+    """hooked: the chain of lazy pipeline stages an abstract header sequence has been wrapped in (proof-only)."""
+    return ''
+
+
+def text_decodable(x, encoding):
+    """hooked"""
+    try:
+        x.decode(encoding)
+        return True
+    except UnicodeDecodeError:
+        return False
+
+
+def is_decimal(x):
+    """hooked: int(x, 10) succeeds"""
+    try:
+        int(x, 10)
+        return True
+    except ValueError:
+        return False
+
+
+def decimal_value(x):
+    """hooked: int(x, 10)"""
+    return int(x, 10)
+
+
+def strlist_len(l):
+    """hooked"""
+    return len(l)
+
+
+def strlist_is_appended(new, old, v):
+    """hooked: new == old + [v]"""
+    return list(new) == list(old) + [v]
+
+
+def strlist_same(a, b):
+    """hooked"""
+    return list(a) == list(b)
+
+
+def strlist_joined(l, sep):
+    """hooked"""
+    return sep.join(l)
